@@ -304,6 +304,29 @@ pub fn sweep_values(rep: &Reporter, c: &Counters, i: &Instr, avals: &[u32], bval
     }
 }
 
+/// Value sweep over an explicit list of operand pairs (relations between the operands) x carry-in.
+pub fn sweep_pairs(rep: &Reporter, c: &Counters, i: &Instr, pairs: &[(u32, u32)], site: &str) {
+    let w = i.operands().get(0).and_then(|o| o.width()).map(|w| w.bits()).unwrap_or(0) as i64;
+    pairs.par_chunks(8192).for_each(|chunk| with_worker(|wk| {
+        let mut p = match prepare(i) {
+            Ok(p) => p,
+            Err(e) => {
+                c.block(format!("{} ({:?})", i.shape(), e));
+                return;
+            }
+        };
+        for (k, (a, b)) in chunk.iter().enumerate() {
+            for cin in 0..2u32 {
+                let f = (if k % 2 == 0 { 0xF000u16 } else { 0x0AD4 }) | cin as u16;
+                let pre = make_state(i, *a, *b, f, 0, &p.dc, 0);
+                wk.case(rep, c, &mut p, &pre, site, &[("a", *a as i64), ("b", *b as i64), ("cin", cin as i64), ("w", w)], (*a + *b) as u64, false);
+            }
+        }
+        wk.audit(rep, &p, site);
+        wk.flush(c);
+    }));
+}
+
 /// End-to-end conformance of one program: render, run through the real CLI binary with the given
 /// stdin, run the reference interpreter on the AST, and match the CLI's stdout against the
 /// reference's event list. Returns a violation-like triple (field, expected, got) on mismatch.
